@@ -115,6 +115,23 @@ func collect(def *schema.SchemaDefinition) *walker {
 	return w
 }
 
+// collectFrom walks from the given named types (everything reachable from them by pointer).
+func collectFrom(types []schema.NamedType) *walker {
+	w := &walker{seen: map[string]bool{}}
+	for _, t := range types {
+		w.walk(reflect.ValueOf(t), "type "+t.TypeName())
+	}
+	return w
+}
+
+func (w *walker) keys() map[string]bool {
+	out := map[string]bool{}
+	for _, c := range w.out {
+		out[fmt.Sprintf("%s:%x", c.Kind, c.Addr)] = true
+	}
+	return out
+}
+
 // shared lists the containers of b whose address is also the address of a container of a
 // (of the same kind).
 func shared(a, b *walker) []container {
@@ -134,13 +151,24 @@ func shared(a, b *walker) []container {
 // mutateAll writes through every container reachable from def: string fields of pointed-to structs
 // are overwritten, every map gets a new entry and has its entries replaced by zero values, every
 // slice element is overwritten with the zero value.
-func mutateAll(def *schema.SchemaDefinition) (err error) {
+func mutateAll(def *schema.SchemaDefinition, except map[string]bool) (err error) {
 	defer func() {
 		if p := recover(); p != nil {
 			err = fmt.Errorf("panic while mutating: %v", p)
 		}
 	}()
 	w := collect(def)
+	if len(except) > 0 {
+		// containers already reported as shared under a known finding are left alone
+		kept := &walker{}
+		for i, c := range w.out {
+			if !except[fmt.Sprintf("%s:%x", c.Kind, c.Addr)] {
+				kept.out = append(kept.out, c)
+				kept.vals = append(kept.vals, w.vals[i])
+			}
+		}
+		w = kept
+	}
 	for i, c := range w.out {
 		v := w.vals[i]
 		switch c.Kind {
